@@ -8,6 +8,19 @@ Import ListNotations.
 Theorem C09_every_executor_validates : forall k, exec_validates k = true.
 Proof. exact exec_validates_all. Qed.
 
+(* the validation read takes row locks (SELECT .. FOR UPDATE) and treats a result set that breaks off as
+   an error (table regenerated from executor.go) ... *)
+Theorem C09_validation_read_locks : exec_check_locks = true /\ exec_read_errors_checked = true.
+Proof. exact validation_read_locks. Qed.
+
+(* ... and the verdict depends on nothing but the rows that read returned: a write of another session to
+   any other row between the validation and the compensating statement cannot change it (writes to
+   the rows read wait for the rollback transaction to end) *)
+Theorem C09_validation_window : forall dv img t u,
+  (forall k, In k (check_keys img) -> lookup k t = lookup k u) ->
+  validate dv img t = validate dv img u.
+Proof. exact validate_window. Qed.
+
 (* ANY position in the log of ANY branch, any kind of image (insert / update / delete, one or many
    rows): the images recorded after it were replayed, then this image finds current rows that equal
    neither its after image nor its before image: nothing is changed (tables and undo log are exactly
